@@ -14,6 +14,20 @@ FIRST_RUN_MISSED = {  # seeded changes the checks did NOT catch when first confr
     "C17-2": "exit 2: history-dependent (class-level cache); deterministic blocks + block re-run were added",
     "C18-1": "every populated tree had a non-empty nsmap; sparse population variants were added",
     "C19-2": "two user ids were only generated with the ORCID one last",
+    "C01-3": "every validation built a fresh Rule; a re-used Rule object is now driven too (and work items stop after 300 problems: this defect makes every further call slower)",
+    "C01-4": "collecting mode was only called with an empty list; a list pre-filled with other nodes' entries is now passed too (C05 caught it)",
+    "C04-4": "content menus had no superscript / circled digits (isdigit() true, int() fails)",
+    "C06-4": "no extras key in Clark notation with a bound URI",
+    "C07-4": "no text with '&' followed by amp/lt/gt without ';'",
+    "C08-3": "one URI was never bound to two different prefixes (state kept by a module-level cache)",
+    "C11-3": "insertion index was only asked for detached probe nodes, not for an already attached child",
+    "C11-4": "no base tree had a default namespace (nsmap key None)",
+    "C12-3": "each node was copied once only; a second copy and a copy of the copy are now made (C14 and C16 caught it)",
+    "C14-3": "no referenced element without children in C14's templates / C16's variants",
+    "C14-4": "the harness held a strong reference to every node; nodes referenced only by the registry are now created (with a cycle collection before the invariant)",
+    "C18-4": "all compared trees satisfied the namespace invariant (C12 caught it)",
+    "C19-3": "a tree was evaluated once per list",
+    "C19-4": "no entity-level methods/coverage or project-level abstract in the parametric tree",
 }
 ids = sys.argv[1:] or sorted(os.listdir(os.path.join(HERE, "seeded")))
 rows = []
